@@ -12,5 +12,5 @@ GInit == Init /\ h = <<>> /\ fin = FALSE
 GNext == \/ ~fin /\ Tick /\ UNCHANGED <<h, fin>>
          \/ ~fin /\ \E k \in Keys : Arrive(k) /\ h' = Append(h, [k |-> k, t |-> now]) /\ UNCHANGED fin
          \/ ~fin /\ now = MaxT /\ fin' = TRUE /\ UNCHANGED <<vars, h>>
-Emit == fin => PrintT(ToJson([th |-> Th, p |-> P, j |-> J, nkeys |-> NKeys, arr |-> h]))
+Emit == fin => PrintT(ToJson([th |-> Ths[1], p |-> P, j |-> J, nkeys |-> NKeys, arr |-> h]))
 =============================================================================
